@@ -60,7 +60,7 @@ func spell(rt *rapid.T, a, r int) int64 {
 
 func c07Gen(rt *rapid.T) c07Case {
 	var c c07Case
-	c.op = rapid.SampledFrom([]string{"Reshape", "Flatten", "Squeeze", "Unsqueeze", "Shape"}).Draw(rt, "op")
+	c.op = drawOp(rt, []string{"Reshape", "Flatten", "Squeeze", "Unsqueeze", "Shape"})
 	dt := rapid.SampledFrom(ops.AllTypes).Draw(rt, "dtype")
 	shape := genShape(0, 5, 4, 256).Draw(rt, "shape")
 	if c.op == "Squeeze" {
